@@ -978,7 +978,12 @@ def val_binop(I, op, a, b):
     if I.st.branch(z3.Not(ok)):
         I.raise_builtin("TypeError", "unsupported operand type(s)")
     f = z3.Function("val_" + type(op).__name__.lower(), VAL, VAL, VAL)
-    return SVal(f(ta, tb))
+    res = f(ta, tb)
+    if isinstance(op, (ast.Add, ast.Sub, ast.Mult)):
+        x, y = VAL.vi(ta), VAL.vi(tb)
+        exact = {ast.Add: x + y, ast.Sub: x - y, ast.Mult: x * y}[type(op)]
+        res = z3.If(z3.And(VAL.is_VInt(ta), VAL.is_VInt(tb)), VAL.VInt(exact), res)  # exact on ints (mathematical integers)
+    return SVal(res)
 
 
 def int_bitop(I, op, x, y):
